@@ -498,6 +498,9 @@ func crossCheck(a, b []*harnessResult) {
 			if m[ob.Label] == nil {
 				m[ob.Label] = map[string]bool{}
 			}
+			if ob.Result == "unknown" {
+				continue // an undecided query is reported as such by its own pass; it is not a disagreement
+			}
 			m[ob.Label][ob.Result] = true
 		}
 		out := map[string]string{}
@@ -516,7 +519,7 @@ func crossCheck(a, b []*harnessResult) {
 		a[i].crossQueries = b[i].queries
 		a[i].crossTime = b[i].solverTime
 		for l, va := range sa {
-			if vb := sb[l]; vb != va {
+			if vb, ok := sb[l]; ok && va != "" && vb != "" && vb != va {
 				a[i].inconclusive = append(a[i].inconclusive, fmt.Sprintf("solvers disagree on %s: z3 4.8 says %s, z3 5.x says %s", l, va, vb))
 			}
 		}
